@@ -418,6 +418,9 @@ def families(seed=0):
         'two-transients': lambda i: 1 + 0.5 ** i + 0.3 * (-0.7) ** i,
         'harmonic-partial': lambda i: float(sum(1.0 / (j * j) for j in range(1, i + 2))),
         'zeros': lambda i: 0.0,
+        'negative-geometric': lambda i: -1 - 2.0 ** -i,
+        'negative-slow': lambda i: -3 + 0.95 ** i,
+        'negative-alternating': lambda i: -2 + (-0.6) ** i,
         'linear': lambda i: float(i),
     }
     noise = rng.normal(size=400)
